@@ -401,6 +401,9 @@ func (ts *TermStore) ModE(a, b *Term) *Term {
 }
 
 func (ts *TermStore) cmpFold(op string, a, b *Term) (*Term, bool) {
+	if a == b {
+		return ts.Bool(op == "<="), true
+	}
 	if a.Const && b.Const {
 		c := a.I.Cmp(b.I)
 		switch op {
@@ -486,12 +489,18 @@ func (ts *TermStore) BVNeg(a *Term) *Term {
 	return ts.mk(a.Sort, "bvneg", a)
 }
 func (ts *TermStore) BVUlt(a, b *Term) *Term {
+	if a == b {
+		return ts.Bool(false)
+	}
 	if a.Const && b.Const {
 		return ts.Bool(a.I.Cmp(b.I) < 0)
 	}
 	return ts.mk(sortBool, "bvult", a, b)
 }
 func (ts *TermStore) BVUle(a, b *Term) *Term {
+	if a == b {
+		return ts.Bool(true)
+	}
 	if a.Const && b.Const {
 		return ts.Bool(a.I.Cmp(b.I) <= 0)
 	}
